@@ -3,12 +3,16 @@
 //
 //   c17_wrap --seed S --first A --last B --cases K      seeded batches A..B-1, K cases each (forked)
 //   c17_wrap --replay                                     case descriptions on stdin, one per line
+//   c17_wrap --gridwrap --seed S --first A --last B --cases K   only Grid::wrap_assign cases (journal lines `gwrap`,
+//                                                         judged by lean/Driver/GridWrap.lean, checks/c17_grid.py)
 //
 // A case DESCRIPTION (everything the real library is called with):
 //   W <dom> <n> <nv> <v>*nv <w> <u|s> <w|u|i> <g:0|1> [<cs n>] <thr> <ind:0|1> <elem n>
 //   D <dom> <n> <hasvars:0|1> [<nv> <v>*nv] <P|S|A> <elem n>
 //   Q <dom> <n> <elem n>
-//   elem  := <ndisj> ( c <cs n> <cgs n> | g <gs n> )*      how each disjunct is built
+//   elem  := <ndisj> ( c <cs n> <cgs n> | g <gs n> | G <ggs n> )*   how each disjunct is built
+//   ggs   := <m> ( <l|q|p> <divisor> <a_0..a_{n-1}> )*     grid generators (line, parameter, point); Grid only
+//   <g> = 2 : a guard of space dimension n+1 (Variable(n) >= 0), to exercise the dimension check of *cs_p
 //   cgs   := <m> ( <modulus> <k> <a_0..a_{n-1}> )*         sum a_i x_i + k == 0 (mod modulus); 0: equality
 //   cs/gs := the encodings of poly_io.hh
 // JOURNAL line:  <wrap|drop|cip> <id> <description> | A <out-elem> | R <out-elem | answer> [| X <exception>]
@@ -28,11 +32,13 @@ static pplv::Journal J(1);
 
 // ---------------------------------------------------------------------------- description data
 struct Cg { Coefficient m, k; std::vector<Coefficient> a; };
+struct GGen { char kind; Coefficient d; std::vector<Coefficient> a; };
 struct Disj {
-  char mode;                       // 'c' or 'g'
+  char mode;                       // 'c', 'g' or 'G'
   Constraint_System cs;
   std::vector<Cg> cgs;
   Generator_System gs;
+  std::vector<GGen> ggs;
 };
 struct Elem { std::vector<Disj> ds; };
 struct Case {
@@ -42,7 +48,7 @@ struct Case {
   bool hasvars;
   std::vector<dimension_type> vars;
   unsigned w; char r, o;
-  bool hasguard; Constraint_System guard;
+  bool hasguard; Constraint_System guard; bool bigguard;
   unsigned thr; bool ind;
   char cc;
   Elem arg;
@@ -71,6 +77,13 @@ static void put_elem_desc(OS& o, const Elem& e, dimension_type n) {
   for (size_t i = 0; i < e.ds.size(); ++i) {
     const Disj& d = e.ds[i];
     if (d.mode == 'g') { o << " g"; put_gs(o, d.gs, n); }
+    else if (d.mode == 'G') {
+      o << " G " << d.ggs.size();
+      for (size_t j = 0; j < d.ggs.size(); ++j) {
+        o << " " << d.ggs[j].kind << " " << d.ggs[j].d;
+        for (size_t q = 0; q < d.ggs[j].a.size(); ++q) o << " " << d.ggs[j].a[q];
+      }
+    }
     else { o << " c"; put_cs(o, d.cs, n); put_cg_vec(o, d.cgs); }
   }
 }
@@ -80,8 +93,8 @@ static std::string describe(const Case& c) {
   if (c.kind == 'W') {
     o << " " << c.vars.size();
     for (size_t i = 0; i < c.vars.size(); ++i) o << " " << c.vars[i];
-    o << " " << c.w << " " << c.r << " " << c.o << " " << (c.hasguard ? 1 : 0);
-    if (c.hasguard) put_cs(o, c.guard, c.n);
+    o << " " << c.w << " " << c.r << " " << c.o << " " << (c.bigguard ? 2 : c.hasguard ? 1 : 0);
+    if (c.hasguard && !c.bigguard) put_cs(o, c.guard, c.n);
     o << " " << c.thr << " " << (c.ind ? 1 : 0);
   } else if (c.kind == 'D') {
     o << " " << (c.hasvars ? 1 : 0);
@@ -136,6 +149,14 @@ static Elem parse_elem(Toks& T, dimension_type n) {
   for (unsigned long i = 0; i < nd; ++i) {
     Disj d; d.mode = T.next()[0];
     if (d.mode == 'g') d.gs = parse_gs(T, n);
+    else if (d.mode == 'G') {
+      unsigned long m = T.num();
+      for (unsigned long j = 0; j < m; ++j) {
+        GGen g; g.kind = T.next()[0]; g.d = T.coef();
+        for (dimension_type q = 0; q < n; ++q) g.a.push_back(T.coef());
+        d.ggs.push_back(g);
+      }
+    }
     else {
       d.cs = parse_cs(T, n);
       unsigned long m = T.num();
@@ -152,13 +173,15 @@ static Elem parse_elem(Toks& T, dimension_type n) {
 static Case parse_case(const std::string& line) {
   Toks T(line); Case c;
   c.kind = T.next()[0]; c.dom = T.next(); c.n = T.num();
-  c.hasvars = false; c.hasguard = false; c.w = 8; c.r = 'u'; c.o = 'w'; c.thr = 16; c.ind = false; c.cc = 'A';
+  c.hasvars = false; c.hasguard = false; c.bigguard = false; c.w = 8; c.r = 'u'; c.o = 'w'; c.thr = 16; c.ind = false; c.cc = 'A';
   if (c.kind == 'W') {
     unsigned long nv = T.num(); c.hasvars = true;
     for (unsigned long i = 0; i < nv; ++i) c.vars.push_back(T.num());
     c.w = T.num(); c.r = T.next()[0]; c.o = T.next()[0];
-    c.hasguard = T.num() != 0;
-    if (c.hasguard) c.guard = parse_cs(T, c.n);
+    unsigned long gflag = T.num();
+    c.hasguard = gflag != 0; c.bigguard = gflag == 2;
+    if (c.bigguard) c.guard.insert(Variable(c.n) >= 0);
+    else if (c.hasguard) c.guard = parse_cs(T, c.n);
     c.thr = T.num(); c.ind = T.num() != 0;
   } else if (c.kind == 'D') {
     c.hasvars = T.num() != 0;
@@ -218,6 +241,18 @@ template <> struct Ops<NNC_Polyhedron> {
 template <> struct Ops<Grid> {
   typedef Grid D;
   static D build(const Disj& d, dimension_type n) {
+    if (d.mode == 'G') {
+      Grid_Generator_System ggs(n);
+      for (size_t j = 0; j < d.ggs.size(); ++j) {
+        Linear_Expression e;
+        if (n > 0) e += 0 * Variable(n - 1);
+        for (dimension_type q = 0; q < n; ++q) e += d.ggs[j].a[q] * Variable(q);
+        if (d.ggs[j].kind == 'l') ggs.insert(grid_line(e));
+        else if (d.ggs[j].kind == 'q') ggs.insert(parameter(e, d.ggs[j].d));
+        else ggs.insert(grid_point(e, d.ggs[j].d));
+      }
+      return Grid(ggs);
+    }
     Grid x(n, UNIVERSE);
     x.add_congruences(to_cgs(d.cgs, n));
     x.refine_with_constraints(d.cs);
@@ -294,6 +329,61 @@ template <typename D> static void run_case(const Case& c, const std::string& id)
   J.line(o.str());
 }
 
+
+// ---------------------------------------------------------------------------- Grid::wrap_assign, model tie
+// gwrap <id> <description> | P <n> <nv> <v>* <w> <u|s> <w|u|i> <gdim|-1> <thr> <ind> <variant>
+//                          | G <E | m (<l|q|p> <d> <a>*n)*>      minimized generators of a COPY of the argument
+//                          | R <E | …> | C <cgs>                  minimized generators / congruences of the result
+//                          | X <class> <method> | L <E | …>       exception, and the receiver as it was left
+static void put_ggs(OS& o, const Grid& g, dimension_type n) {
+  if (g.is_empty()) { o << " E"; return; }
+  const Grid_Generator_System& gs = g.minimized_grid_generators();
+  size_t m = 0;
+  for (Grid_Generator_System::const_iterator i = gs.begin(); i != gs.end(); ++i) ++m;
+  o << " " << m;
+  for (Grid_Generator_System::const_iterator i = gs.begin(); i != gs.end(); ++i) {
+    o << " " << (i->is_line() ? 'l' : i->is_parameter() ? 'q' : 'p') << " " << (i->is_line() ? Coefficient(1) : i->divisor());
+    for (dimension_type j = 0; j < n; ++j)
+      o << " " << (j < i->space_dimension() ? i->coefficient(Variable(j)) : Coefficient(0));
+  }
+}
+static bool g_emit_gwrap = false;
+static void gwrap_case(const Case& c, const std::string& id, unsigned variant) {
+  OS o;
+  o << "gwrap " << id << " " << describe(c) << " | P " << c.n << " " << c.vars.size();
+  for (size_t i = 0; i < c.vars.size(); ++i) o << " " << c.vars[i];
+  o << " " << c.w << " " << c.r << " " << c.o << " ";
+  if (c.hasguard) o << c.guard.space_dimension(); else o << -1;
+  o << " " << c.thr << " " << (c.ind ? 1 : 0) << " " << variant;
+  Grid x(c.n, UNIVERSE);
+  bool built = false;
+  try {
+    x = Ops<Grid>::build_elem(c.arg, c.n);
+    // the state in which the receiver enters wrap_assign: as built / generators minimized / congruences minimized
+    if (variant == 1) (void) x.minimized_grid_generators();
+    else if (variant == 2) (void) x.minimized_congruences();
+    { Grid y(x); o << " | G"; put_ggs(o, y, c.n); }
+    built = true;
+    Variables_Set vs;
+    for (size_t i = 0; i < c.vars.size(); ++i) vs.insert(Variable(c.vars[i]));
+    J.line("begin " + id + " " + describe(c));
+    x.wrap_assign(vs, width_of(c.w), c.r == 'u' ? UNSIGNED : SIGNED_2_COMPLEMENT,
+                  c.o == 'w' ? OVERFLOW_WRAPS : c.o == 'u' ? OVERFLOW_UNDEFINED : OVERFLOW_IMPOSSIBLE,
+                  c.hasguard ? &c.guard : 0, c.thr, c.ind);
+    o << " | R"; put_ggs(o, x, c.n);
+    o << " | C";
+    if (x.is_empty()) o << " E"; else put_cgs(o, x.minimized_congruences(), c.n);
+  } catch (const std::exception& e) {
+    std::string w = e.what(), m = "?";
+    size_t a = w.find("PPL::Grid::");
+    if (a != std::string::npos) { size_t b = w.find('(', a); if (b != std::string::npos) m = w.substr(a + 11, b - a - 11); }
+    o << " | X " << pplv::exc_class() << " " << m;
+    if (built) { try { o << " | L"; put_ggs(o, x, c.n); } catch (...) { o << " ?"; } }
+  } catch (...) {
+    o << " | X " << pplv::exc_class() << " ?";
+  }
+  J.line(o.str());
+}
 
 // ---------------------------------------------------------------------------- tracing PSET
 // The real template Implementation::wrap_assign<PSET> (src/wrap_assign.hh) is instantiated with a
@@ -398,7 +488,7 @@ static void dispatch(const Case& c, const std::string& id) {
   else if (d == "OZ") run_case<Octagonal_Shape<mpz_class> >(c, id);
   else if (d == "RB") run_case<Rational_Box>(c, id);
   else if (d == "ZB") run_case<Z_Box>(c, id);
-  else if (d == "G") run_case<Grid>(c, id);
+  else if (d == "G") { run_case<Grid>(c, id); if (c.kind == 'W' && g_emit_gwrap) gwrap_case(c, "g" + id, c.thr % 3); }
   else if (d == "PC") run_case<Pointset_Powerset<C_Polyhedron> >(c, id);
   else if (d == "PN") run_case<Pointset_Powerset<NNC_Polyhedron> >(c, id);
   else J.line("skip " + id + " unknown-domain " + d);
@@ -548,7 +638,7 @@ static Case rnd_wrap_case(Rng& r, const std::string& dom) {
   c.thr = THR[r.below(10)];
   c.ind = r.chance(1, 2);
   c.cc = 'A';
-  c.hasguard = false;
+  c.hasguard = false; c.bigguard = false;
   bool nnc = is_nnc(dom);
   if (dom == "G") { c.arg.ds.push_back(rnd_grid_disj(r, c)); }
   else {
@@ -612,7 +702,7 @@ static Case rnd_small_case(Rng& r, const std::string& dom, char kind) {
   Case c; c.kind = kind; c.dom = dom;
   c.n = 1 + r.below(3);
   if (r.chance(1, 12)) c.n = 0;
-  c.hasvars = false; c.hasguard = false; c.w = 8; c.r = 'u'; c.o = 'w'; c.thr = 16; c.ind = false;
+  c.hasvars = false; c.hasguard = false; c.bigguard = false; c.w = 8; c.r = 'u'; c.o = 'w'; c.thr = 16; c.ind = false;
   c.cc = "PSA"[r.below(3)];
   if (kind == 'D' && r.chance(1, 2)) { c.hasvars = true; c.vars = rnd_vars(r, c.n, true); }
   bool nnc = is_nnc(dom);
@@ -622,6 +712,171 @@ static Case rnd_small_case(Rng& r, const std::string& dom, char kind) {
     for (unsigned i = 0; i < nd; ++i) c.arg.ds.push_back(rnd_small_disj(r, c.n, nnc, is_poly(dom)));
   }
   return c;
+}
+
+
+// ---------------------------------------------------------------------------- random Grid::wrap_assign cases
+// grids of every shape: per-variable and relational congruences with rational coefficients, generator systems
+// with a common divisor, frequencies f_n/f_d with f_n below / equal to / a multiple of / above-and-coprime-to 2^w,
+// constants inside / outside the range, variables moving along lines, empty grids
+static Coefficient rnd_gw_mod(Rng& r, const Coefficient& P) {
+  switch (r.below(12)) {
+    case 0: return P; case 1: return P; case 2: return P / 2; case 3: return 2 * P; case 4: return 3 * P;
+    case 5: return P + 1; case 6: return P - 1; case 7: return P + P / 2; case 8: return Coefficient(r.range(1, 9));
+    case 9: return P + (P / 256) * r.range(1, 700) + r.range(0, 3); case 10: return P / 4;
+    default: return Coefficient(0);
+  }
+}
+static Coefficient rnd_gw_off(Rng& r, const Coefficient& P) {
+  Coefficient off = r.range(-3, 3);
+  switch (r.below(6)) {
+    case 0: off += (P / 256) * r.range(-600, 600); break;
+    case 1: off += P / 2 * r.range(-3, 3); break;          // around +-2^(w-1), +-2^w
+    case 2: off += P * r.range(-2, 2) - r.range(0, 1); break;
+    default: break;
+  }
+  return off;
+}
+static Disj rnd_gw_cgs(Rng& r, const Case& c) {
+  Disj d; d.mode = 'c';
+  dimension_type n = c.n;
+  Coefficient P = pow2c(c.w);
+  // mostly one row per "main" variable (a triangular system is rarely inconsistent), sometimes extra rows
+  std::vector<dimension_type> order;
+  for (dimension_type i = 0; i < n; ++i) order.push_back(i);
+  for (dimension_type i = n; i > 1; --i) std::swap(order[i - 1], order[r.below(i)]);
+  unsigned m = n == 0 ? 0 : 1 + r.below(n);
+  if (n > 0 && r.chance(1, 6)) m += 1;
+  for (unsigned j = 0; j < m; ++j) {
+    std::vector<long> a(n, 0);
+    dimension_type i = j < n ? order[j] : (dimension_type)r.below(n);
+    a[i] = r.chance(1, 3) ? r.range(2, 4) : (r.chance(1, 6) ? -1 : 1);
+    // relational rows only mention variables that come later in the order (or any, for the extra rows)
+    if (n >= 2 && r.chance(2, 5)) { dimension_type b = j + 1 < n ? order[j + 1 + r.below(n - j - 1)] : (dimension_type)r.below(n);
+      if (b != i) a[b] = r.chance(1, 4) ? r.range(-3, 3) : (r.chance(1, 2) ? 1 : -1); }
+    if (n >= 3 && r.chance(1, 8)) { dimension_type b = r.below(n); if (b != i) a[b] = r.range(-2, 2); }
+    d.cgs.push_back(mk_cg(rnd_gw_mod(r, P), -rnd_gw_off(r, P), a));
+  }
+  return d;
+}
+// x (and, tied to it, y) in a/d + (2^w/d)Z with d odd: the frequency numerator is exactly 2^w, the representative
+// closest to zero is not an integer
+static Disj rnd_gw_feq(Rng& r, const Case& c) {
+  Disj d; d.mode = 'G';
+  dimension_type n = c.n;
+  Coefficient P = pow2c(c.w);
+  static const long ODD[] = {3, 3, 5, 7, 9};
+  Coefficient div = ODD[r.below(5)];
+  dimension_type x = c.vars.empty() ? 0 : c.vars[r.below(c.vars.size())];
+  if (x >= n) x = 0;
+  GGen pt; pt.kind = 'p'; pt.d = div;
+  GGen q; q.kind = 'q'; q.d = div;
+  Coefficient a = r.range(-20, 20);
+  for (dimension_type k = 0; k < n; ++k) {
+    bool tied = k != x && r.chance(1, 2);
+    pt.a.push_back(k == x ? a : tied ? Coefficient(a * r.range(-1, 1) + div * r.range(-2, 2)) : Coefficient(div * r.range(-3, 3)));
+    q.a.push_back(k == x ? P : tied ? Coefficient(P * r.range(-2, 2)) : Coefficient(0));
+  }
+  d.ggs.push_back(pt); d.ggs.push_back(q);
+  if (n >= 2 && r.chance(1, 3)) {
+    GGen q2; q2.kind = 'q'; q2.d = div;
+    dimension_type y = r.below(n);
+    for (dimension_type k = 0; k < n; ++k) q2.a.push_back(k == y && y != x ? Coefficient(div * r.range(1, 5)) : Coefficient(0));
+    d.ggs.push_back(q2);
+  }
+  return d;
+}
+static Disj rnd_gw_gens(Rng& r, const Case& c) {
+  Disj d; d.mode = 'G';
+  dimension_type n = c.n;
+  Coefficient P = pow2c(c.w);
+  static const long DIVS[] = {1, 1, 1, 2, 3, 3, 4, 6};
+  Coefficient div = DIVS[r.below(8)];
+  GGen pt; pt.kind = 'p'; pt.d = div;
+  for (dimension_type i = 0; i < n; ++i) pt.a.push_back(r.chance(1, 3) ? Coefficient(rnd_gw_off(r, P) * div) : rnd_gw_off(r, P));
+  d.ggs.push_back(pt);
+  unsigned np = r.below(n + 2), nl = r.chance(1, 4) ? 1 + r.below(n > 1 ? 2 : 1) : 0;
+  if (n == 0) { np = 0; nl = 0; }
+  for (unsigned j = 0; j < np; ++j) {
+    GGen q; q.kind = 'q'; q.d = div;
+    Coefficient f = rnd_gw_mod(r, P); if (f == 0) f = 1;
+    bool rel = n >= 2 && r.chance(1, 2);
+    dimension_type i = n > 0 ? r.below(n) : 0;
+    for (dimension_type k = 0; k < n; ++k) {
+      Coefficient v = 0;
+      if (k == i) v = r.chance(1, 3) ? f : Coefficient(f * div);
+      else if (rel && r.chance(1, 2)) v = r.chance(1, 2) ? (r.chance(1, 2) ? f : Coefficient(f * div)) : Coefficient(r.range(-3, 3));
+      q.a.push_back(v);
+    }
+    d.ggs.push_back(q);
+  }
+  for (unsigned j = 0; j < nl; ++j) {
+    GGen l; l.kind = 'l'; l.d = 1;
+    dimension_type i = n > 0 ? r.below(n) : 0;
+    for (dimension_type k = 0; k < n; ++k) l.a.push_back(k == i ? Coefficient(1) : (r.chance(1, 3) ? Coefficient(r.range(-2, 2)) : Coefficient(0)));
+    d.ggs.push_back(l);
+  }
+  return d;
+}
+static Case rnd_gw_case(Rng& r) {
+  Case c; c.kind = 'W'; c.dom = "G"; c.hasvars = true;
+  c.n = 1 + r.below(4);
+  if (r.chance(1, 60)) c.n = 0;
+  c.vars = rnd_vars(r, c.n, true);
+  if (c.n > 0 && r.chance(1, 50)) c.vars.push_back(c.n + r.below(2));        // beyond the space dimension: must throw
+  unsigned wk = r.below(20);
+  c.w = wk < 13 ? 8 : wk < 15 ? 16 : wk < 17 ? 32 : wk < 19 ? 64 : 128;
+  c.r = r.chance(1, 2) ? 'u' : 's';
+  unsigned ok = r.below(9);
+  c.o = ok < 4 ? 'w' : ok < 6 ? 'u' : 'i';
+  c.thr = r.below(30);
+  c.ind = r.chance(1, 2);
+  c.cc = 'A';
+  c.hasguard = false; c.bigguard = false;
+  if (c.n > 0 && r.chance(1, 10)) c.arg.ds.push_back(rnd_gw_feq(r, c));
+  else c.arg.ds.push_back(r.chance(1, 2) ? rnd_gw_cgs(r, c) : rnd_gw_gens(r, c));
+  if (r.chance(1, 40)) { c.hasguard = true; c.bigguard = true; c.guard.insert(Variable(c.n) >= 0); }
+  else if (c.n > 0 && r.chance(1, 5)) {
+    c.hasguard = true;
+    Linear_Expression e = Variable(r.below(c.n)) + r.range(-300, 300);
+    c.guard.insert(e >= 0);
+  }
+  return c;
+}
+static const char* GW_PLANTED[] = {
+  "W G 1 1 0 8 u i 0 16 0 1 c 0 1 128 0 1",
+  "W G 1 1 0 8 s w 0 16 0 1 c 0 1 0 -200 1",
+  "W G 1 1 0 8 u w 0 16 0 1 c 0 1 256 -1 3",
+  "W G 1 1 0 8 s w 0 16 0 1 c 0 1 256 -128 1",
+  "W G 2 1 1 8 u w 0 6 0 1 c 0 1 0 2 1 1",
+  "W G 1 1 0 8 u w 0 16 0 1 c 0 1 300 0 1",
+  "W G 1 1 0 8 s w 0 16 0 1 c 0 1 257 -5 1",
+  "W G 2 1 1 16 u w 0 16 0 1 c 0 2 65537 -7 0 1 0 0 1 0",
+  // KF-C17-12: A = B, 3A = 1 (mod 256); A wrapped: (-341,-341) wraps to (171,-341)
+  "W G 2 1 0 8 u w 0 16 0 1 c 0 2 256 -1 3 0 0 0 1 -1",
+  // KF-C17-13: A in (1/2)Z, B = A + 1/2, both wrapped: the receiver becomes empty inside the loop
+  "W G 2 2 0 1 8 u w 0 16 0 1 c 0 2 1 0 2 0 0 -1 -2 2",
+  // the same grids given by generators
+  "W G 2 1 0 8 u w 0 16 0 1 G 2 p 3 1 1 q 3 256 256",
+  "W G 2 2 0 1 8 s w 0 16 0 1 G 2 p 2 0 1 q 2 1 1",
+};
+static const int NGW_PLANTED = 12;
+
+static void gw_batch(uint64_t seed, long b, long cases) {
+  Rng r(seed * 1000003ull + (uint64_t)b * 104729ull + 1717);
+  { OS o; o << "batch " << b << " seed " << seed; J.line(o.str()); }
+  if (b == 0)
+    for (int i = 0; i < NGW_PLANTED; ++i) {
+      OS id; id << "gp" << i;
+      try { Case c = parse_case(GW_PLANTED[i]); gwrap_case(c, id.str(), i % 3); }
+      catch (...) { J.line("skip " + id.str() + " bad-planted-case"); }
+    }
+  for (long i = 0; i < cases; ++i) {
+    OS id; id << "gb" << b << "c" << i;
+    Case c = rnd_gw_case(r);
+    gwrap_case(c, id.str(), r.below(3));
+  }
+  J.line("end");
 }
 
 // the literal witnesses of the defects known at design time are part of every first batch
@@ -710,6 +965,15 @@ int main(int argc, char** argv) {
   bool replay = false;
   for (int i = 1; i < argc; ++i) if (!strcmp(argv[i], "--replay")) replay = true;
   long cpu = pplv::arg_long(argc, argv, "--cpu", 20);
+  bool gridwrap = false;
+  for (int i = 1; i < argc; ++i) if (!strcmp(argv[i], "--gridwrap")) gridwrap = true;
+  g_emit_gwrap = replay || gridwrap;
+  if (gridwrap && !replay) {
+    uint64_t seed = (uint64_t)pplv::arg_long(argc, argv, "--seed", 1);
+    long first = pplv::arg_long(argc, argv, "--first", 0), last = pplv::arg_long(argc, argv, "--last", 4);
+    long cases = pplv::arg_long(argc, argv, "--cases", 200);
+    return pplv::run_batches(first, last, [&](long b) { gw_batch(seed, b, cases); }, (int)cpu);
+  }
   if (replay) {
     std::string line;
     std::vector<std::string> lines;
